@@ -268,7 +268,8 @@ def insert_file(state, inserted_file_path: str) -> bytes:
             "io-error",
             (state["insn"].ctx_start, state["insn"].ctx_end, f"The file at path '{include_path}' is a directory.")
         )
-    except IOError:
+    except (IOError, ValueError):
+        # ValueError: the path cannot name a file at all, e.g. contains '\0'
         reports.error(
             "io-error",
             (state["insn"].ctx_start, state["insn"].ctx_end, f"Could not read file at path '{include_path}'.")
@@ -400,6 +401,13 @@ def include(state, included_file_path: str):
         reports.error(
             "io-error",
             (state["insn"].ctx_start, state["insn"].ctx_end, f"Source file '{include_path}' is not in UTF-8:\n{ex}")
+        )
+        return b""
+    except ValueError:
+        # The path cannot name a file at all, e.g. contains '\0'
+        reports.error(
+            "io-error",
+            (state["insn"].ctx_start, state["insn"].ctx_end, f"Could not read file at path '{include_path}'.")
         )
         return b""
 
